@@ -6,6 +6,7 @@ token lists, so a second reply or a truncated array is a divergence unless the m
 arities 0..8 x operand classes x prior key types, each command followed by a pipelined ECHO marker;
 the tokens read before the marker must be exactly one complete RESP value."""
 import re
+import struct
 import vlib
 from checks import apicheck
 from gen_api import hx
@@ -128,8 +129,338 @@ def big_replies():
     return ops
 
 
+# ---------------------------------------------------------------------------------------------------
+# the reply writer alone (redis.Writer of redis/resp.go) against Model/RespWriter: harness lines "wr …",
+# private state (w, len(buf), err), the whole backing array and the sink compared after every call
+WR_DEFAULT = 4096
+WR_DOUBLES = [("3ff0000000000000", "1"), ("7ff0000000000000", "+Inf"), ("fff0000000000000", "-Inf"), ("7ff8000000000001", "NaN"),
+              ("c08f400000000000", "-1000"), ("0000000000000000", "0"), ("4340000000000000", "9007199254740992")]
+WR_SMALL = (["wr WriteInt64 -9223372036854775808", "wr WriteInt64 9223372036854775807", "wr WriteUInt64 18446744073709551615",
+             "wr WriteArray 0", "wr WriteArray -1", "wr WriteMap 3", "wr WriteOK", "wr WriteBulkNull", "wr WriteArrayNull", "wr WriteNullMap"]
+            + ["wr WriteDouble " + b for b, _ in WR_DOUBLES])
+WR_SHORT = ["wr WriteString -", "wr WriteString 4f4b", "wr WriteBulk -", "wr WriteBulk 68656c6c6f", "wr WriteError -", "wr WriteError 455252206e6f"]
+
+
+def wr_pat(n, kind="r", byte=0x61):
+    """one argument token of n bytes: r = n times the byte, c = counting pattern starting at the byte"""
+    return "-" if n == 0 else "%s%dx%02x" % (kind, n, byte)
+
+
+def double_bits(k):
+    return struct.pack(">d", float(k)).hex()
+
+
+class WrShadow:
+    """follows the growth policy of the Go writer (writeByte: +4096 when w >= len; writeBytes(n): +n when
+    w+n >= len). It only steers the generator towards the boundaries; it is never compared with anything."""
+
+    def __init__(self):
+        self.w, self.ln, self.total = 0, WR_DEFAULT, 0
+
+    def byte(self):
+        if self.w >= self.ln:
+            self.ln += WR_DEFAULT
+        self.w += 1
+        self.total += 1
+
+    def chunk(self, n):
+        if self.w + n >= self.ln:
+            self.ln += n
+        self.w += n
+        self.total += n
+
+    def apply(self, op):
+        t = op.split()
+        name = t[1]
+        if name == "new":
+            self.w, self.ln = 0, WR_DEFAULT
+        elif name == "Flush":
+            self.w = 0
+        elif name in ("WriteString", "WriteError"):
+            self.byte(); self.chunk(wr_len(t[2])); self.chunk(2)
+        elif name == "WriteBulk":
+            n = wr_len(t[2])
+            self.byte(); self.chunk(len(str(n))); self.chunk(2); self.chunk(n); self.chunk(2)
+        elif name in ("WriteArray", "WriteMap", "WriteInt64", "WriteUInt64"):
+            self.byte(); self.chunk(len(t[2])); self.chunk(2)
+        elif name == "WriteDouble":
+            txt = dict(WR_DOUBLES).get(t[2])
+            if txt is None:
+                txt = str(int(struct.unpack(">d", bytes.fromhex(t[2]))[0]))
+            self.byte(); self.chunk(len(txt)); self.chunk(2)
+        elif name in ("WriteBulkNull", "WriteArrayNull", "WriteNullMap", "WriteOK"):
+            self.chunk(5)
+
+
+def wr_len(tok):
+    if tok == "-":
+        return 0
+    if tok[0] in "rc" and "x" in tok:
+        return int(tok[1:tok.index("x")])
+    return len(tok) // 2
+
+
+def writer_bytes(ops):
+    """total number of bytes the writer is asked to append by a stream (budget check of the generators)"""
+    sh = WrShadow()
+    for op in ops:
+        sh.apply(op)
+    return sh.total
+
+
+def writer_edges(quick=True):
+    """deterministic boundary cases of the writer: payloads of every size around the initial 4096 bytes and
+    around its multiples, the buffer filled to defaultSize-2..+2 followed by each kind of write, failing
+    flushes (0 / some / all bytes accepted) followed by more writes, the error flag through Flush, 10^4
+    writes without a flush, 2000 writes each followed by a flush, one reply crossing the buffer's end with a
+    (failing) Flush at every position"""
+    ops = []
+    sizes = [0, 1, 2] + list(range(4090, 4101)) + list(range(8185, 8196)) + list(range(12286, 12291)) + [16383, 16384, 16385, 65535, 65536, 65537, 1048576]
+    for n in sizes:
+        big = ["wr WriteBulk " + wr_pat(n, "r", 0x61)]
+        if n <= 70000:
+            big += ["wr WriteString " + wr_pat(n, "c", 0x20), "wr WriteError " + wr_pat(n, "c", 0x20)]
+        for b in big:
+            ops += ["wr new", b, "wr Bytes", "wr HasError", "wr Flush"] + WR_SMALL + ["wr Flush", "wr dump"]
+    # fill to the boundary with a simple string (w = L + 3), then each kind of write
+    for target in range(WR_DEFAULT - 2, WR_DEFAULT + 3):
+        for small in WR_SMALL + WR_SHORT + ["wr WriteInt64 1", "wr WriteArray 10"]:
+            ops += ["wr new", "wr WriteString " + wr_pat(target - 3, "c", 0x41), small, "wr Bytes", "wr dump"]
+    # w = len-1 after a write, so that the first byte of the next reply makes w == len, for every kind of next reply
+    for small in WR_SMALL[:3] + WR_SHORT + ["wr WriteOK", "wr WriteInt64 1"]:
+        ops += ["wr new", "wr WriteString " + wr_pat(WR_DEFAULT - 4, "c", 0x41), small, "wr WriteInt64 1", "wr dump", "wr Flush", small, "wr dump"]
+    # a 5-byte constant that crosses the end, then single-byte-first writes
+    ops += ["wr new", "wr WriteString c4090x41", "wr WriteBulkNull", "wr WriteInt64 1", "wr WriteInt64 22", "wr WriteOK", "wr WriteString -", "wr WriteBulk -",
+            "wr Bytes", "wr dump", "wr Flush", "wr WriteInt64 1", "wr dump"]
+    # failing sinks: nothing / 3 bytes / everything accepted, then more writes, a successful flush
+    for k in (0, 3, 1000000):
+        ops += ["wr new", "wr WriteOK", "wr WriteBulk 68656c6c6f", f"wr FlushFail {k}", "wr HasError", "wr Bytes", "wr WriteInt64 7", f"wr FlushFail {k}",
+                "wr WriteError 6f6f7073", "wr HasError", f"wr FlushFail {k}", "wr HasError", "wr Bytes", "wr Flush", "wr HasError", "wr Bytes", "wr dump",
+                "wr Flush", f"wr FlushFail {k}", "wr Flush", "wr dump"]
+    ops += ["wr new", "wr FlushFail 0", "wr Flush", "wr WriteString c5000x30", "wr FlushFail 4096", "wr WriteOK", "wr FlushFail 5007", "wr Flush", "wr dump"]
+    # the error flag
+    ops += ["wr new", "wr HasError", "wr WriteError 455252", "wr HasError", "wr WriteOK", "wr HasError", "wr Flush", "wr HasError", "wr WriteOK", "wr HasError",
+            "wr WriteError -", "wr HasError", "wr new", "wr HasError", "wr dump"]
+    # 10^4 writes without a flush (a growing writeBytes adds exactly its own size; slack comes back only with a type byte at w == len)
+    ops.append("wr new")
+    for i in range(10000):
+        if i % 7 == 3:
+            ops.append("wr WriteBulk " + wr_pat(i % 23, "c", 0x30 + i % 64))
+        elif i % 11 == 5:
+            ops.append("wr WriteOK")
+        else:
+            ops.append(f"wr WriteInt64 {(-1) ** i * i * 37}")
+    ops += ["wr Bytes", "wr HasError", "wr Flush", "wr dump", "wr WriteOK", "wr Flush", "wr dump"]
+    # a flush after every write
+    ops.append("wr new")
+    for i in range(2000):
+        pick = i % 9
+        if pick == 0:
+            ops.append("wr WriteBulk " + wr_pat(i % 31, "r", 0x41 + i % 26))
+        elif pick == 1:
+            ops.append("wr WriteError " + wr_pat(i % 5, "c", 0x45))
+        elif pick == 2:
+            ops.append(WR_SMALL[i % len(WR_SMALL)])
+        elif pick == 3:
+            ops.append("wr WriteDouble " + double_bits((i - 1000) * 12345))
+        else:
+            ops.append(f"wr WriteInt64 {i - 1000}")
+        ops.append("wr Flush")
+        if i % 400 == 399:
+            ops.append("wr dump")
+    ops += ["wr HasError", "wr dump"]
+    # one fixed sequence of writes that crosses the end of the initial buffer (an array of bulk strings, an error in
+    # the middle), with a Flush inserted at EVERY position, and with a failing Flush (3 bytes taken) at every position
+    base = ["wr WriteArray 9", "wr WriteBulk " + wr_pat(2000, "c", 0x41), "wr WriteBulkNull", "wr WriteInt64 -42", "wr WriteBulk " + wr_pat(2080, "r", 0x62),
+            "wr WriteError 45525220626f6f6d", "wr WriteBulk -", "wr WriteString 4f4b", "wr WriteBulk " + wr_pat(5000, "c", 0x30), "wr WriteUInt64 18446744073709551615"]
+    for k in range(len(base) + 1):
+        for fl in ("wr Flush", "wr FlushFail 3"):
+            ops += ["wr new"] + base[:k] + [fl, "wr HasError"] + base[k:] + ["wr Bytes", "wr Flush", "wr HasError", "wr dump"]
+    return ops
+
+
+def writer_stream(rng, n, max_huge=2, p64k=0.008):
+    """random call sequences on one bare writer. A shadow (w, len) following the Go growth policy steers the
+    payload sizes onto free-2..free+2, the multiples of 4096 / 8192, sometimes 64 KiB and at most max_huge
+    times 1 MiB; flushes (some failing after k bytes), Bytes / HasError / dump, a new writer now and then."""
+    I64 = [-2 ** 63, 2 ** 63 - 1, 0, -1, 1, 10, -10, 2 ** 31, -2 ** 31, 2 ** 32, 999999999, -1000000000]
+    U64 = [0, 1, 2 ** 64 - 1, 2 ** 63, 2 ** 63 - 1, 10 ** 19]
+    ops = ["wr new"]
+    sh = WrShadow()
+    huge = 0
+    renew_in = -1            # after a 1 MiB payload the writer is replaced within a few calls (its buffer never shrinks)
+
+    def size(overhead):
+        nonlocal huge
+        free = sh.ln - sh.w
+        r = rng.random()
+        if r < 0.40:
+            return rng.randint(0, 20)
+        if r < 0.75 and free <= 20000:
+            return max(0, free - overhead + rng.randint(-3, 3))
+        if r < 0.92:
+            base = rng.choice([4096, 4096, 8192, 8192, 12288, 16384])
+            return max(0, base - rng.choice([0, overhead, sh.w % 4096]) + rng.randint(-3, 3))
+        if r < 0.92 + p64k:
+            return 65536 + rng.randint(-2, 2)
+        if r < 0.92 + p64k + 0.002 and huge < max_huge:
+            huge += 1
+            return 1048576 + rng.randint(-1, 1)
+        return rng.randint(0, 300)
+
+    def arg(k):
+        if k == 0:
+            return "-"
+        if k <= 20 and rng.random() < 0.5:
+            return bytes(rng.choice([13, 10, 0, 255, 43, 36, 45, 58]) if rng.random() < 0.3 else rng.randrange(256) for _ in range(k)).hex()
+        return wr_pat(k, rng.choice("rc"), rng.randrange(256))
+
+    while len(ops) < n:
+        r = rng.random()
+        if renew_in == 0 or r < (0.05 if sh.ln > 20000 else 0.01):
+            op, renew_in = "wr new", -1
+        elif r < 0.16:
+            op = "wr Flush"
+        elif r < 0.18:
+            op = "wr FlushFail %d" % max(0, rng.choice([0, 1, sh.w - 1, sh.w, sh.w + 5]))
+        elif r < 0.21:
+            op = "wr Bytes"
+        elif r < 0.24:
+            op = "wr HasError"
+        elif r < 0.27:
+            op = "wr dump"
+        elif r < 0.55:
+            kind = rng.choice(["WriteString", "WriteBulk", "WriteBulk", "WriteError"])
+            k = size(1 if kind != "WriteBulk" else 1 + len(str(max(0, sh.ln - sh.w))) + 2)
+            if k >= 1000000:
+                renew_in = rng.randint(4, 12)
+            op = f"wr {kind} {arg(k)}"
+        elif r < 0.67:
+            v = rng.choice(I64) if rng.random() < 0.4 else (rng.randint(-2 ** 63, 2 ** 63 - 1) if rng.random() < 0.5 else rng.randint(-100000, 100000))
+            op = f"wr WriteInt64 {v}"
+        elif r < 0.72:
+            v = rng.choice(U64) if rng.random() < 0.5 else rng.randrange(2 ** 64)
+            op = f"wr WriteUInt64 {v}"
+        elif r < 0.80:
+            op = "wr %s %d" % (rng.choice(["WriteArray", "WriteMap"]), rng.choice([-1, 0, 1, 10, 1000000, -5]))
+        elif r < 0.88:
+            if rng.random() < 0.5:
+                bits = rng.choice(WR_DOUBLES)[0]
+            else:
+                m = rng.choice([10, 1000, 10 ** 6, 2 ** 31, 2 ** 53 - 1])
+                bits = double_bits(rng.randint(-m, m))
+            op = "wr WriteDouble " + bits
+        else:
+            op = "wr " + rng.choice(["WriteOK", "WriteBulkNull", "WriteArrayNull", "WriteNullMap"])
+        ops.append(op)
+        sh.apply(op)
+        if renew_in > 0:
+            renew_in -= 1
+    ops += ["wr Bytes", "wr dump", "wr Flush", "wr dump"]
+    return ops
+
+
+def _wr_observable(line):
+    """a `wr` line without the REPRESENTATION of the buffer: the length of the backing array (len=) and the digest of
+    the whole array with its stale bytes (buf=). What stays is what a caller of the Writer can observe: the reply of the
+    call, w (= len(Bytes())), err, the chunk handed to the connection, the sink."""
+    return re.sub(r"\bbuf=\S+", "buf=*", re.sub(r"\blen=\d+", "len=*", line))
+
+
+def _wr_inv_broken(g):
+    """first line of the implementation on which w > len(buf) (the representation invariant the proofs need)"""
+    for i, x in enumerate(g):
+        mo = re.search(r"\bw=(\d+) len=(\d+)", x)
+        if mo and int(mo.group(1)) > int(mo.group(2)):
+            return i
+    return None
+
+
+def writer_correspond(ctx, h, ops, tag, label):
+    """The bare reply writer against Model/RespWriter.lean, whole state after every call.
+
+    Two levels. (1) Observable behaviour (replies, w, err, every chunk handed to the connection, the sink) must agree
+    verbatim: any difference is a VIOLATION, as is a state with w > len(buf). (2) The representation — len(buf) after
+    every call and the stale bytes of the backing array — is compared too. If ONLY the representation differs, the code
+    has a different growth / copy policy than the one the model mirrors (`writeBytes_policy`, `writer_growth*`,
+    `grow_copies_everything` no longer describe it) while it still refines the abstract buffered writer
+    (Spec/RespWriterSpec.lean) on every call of the run, which is what C16 needs. That is reported as a note
+    (`writer-representation-drift`, evidence) and NOT as a violation, unless VERIF_WRITER_REPR=strict: a
+    behaviour-preserving change of the growth policy (DESIGN §8, H1-1) must not raise an alarm."""
+    import os
+    strict = os.environ.get("VERIF_WRITER_REPR", "observable") == "strict"
+    g, m = vlib.run_pair(ctx, ops, h, tag)
+    ctx.cov["evaluations"] += len(ops)
+    ctx.cov["streams"][label] = ctx.cov["streams"].get(label, 0) + len(ops)
+
+    def divergence(gg, mm, n):
+        """index of the first line that counts as a divergence, or None"""
+        if strict:
+            return vlib.first_diff(gg, mm, n)
+        d = vlib.first_diff([_wr_observable(x) for x in gg], [_wr_observable(x) for x in mm], n)
+        b = _wr_inv_broken(gg[:n])
+        cands = [x for x in (d, b) if x is not None]
+        return min(cands) if cands else None
+
+    for i, op in enumerate(ops):
+        if i < len(g) and i < len(m) and g[i] == m[i]:
+            ctx.nontrivial.add(vlib.classify(op, g[i]))
+            toks = op.split()
+            key = "wr " + (toks[1] if len(toks) > 1 else "")
+            ctx.cov["distribution"][key] = ctx.cov["distribution"].get(key, 0) + 1
+    if len(ctx.cov["samples"]) < 6 and len(ops) > 3:
+        k = ctx.rng.randrange(1, len(ops) - 2)
+        ctx.cov["samples"].append({"stream": label, "ops": ops[k:k + 3], "impl": g[k:k + 3], "model": m[k:k + 3]})
+    d = divergence(g, m, len(ops))
+    if d is None:
+        r = vlib.first_diff(g, m, len(ops))
+        if r is not None:
+            drift = ctx.cov.setdefault("writer_representation_drift", {"lines": 0, "first": None})
+            drift["lines"] += sum(1 for i in range(len(ops)) if i < len(g) and i < len(m) and g[i] != m[i])
+            if drift["first"] is None:
+                drift["first"] = {"stream": tag, "line": r, "op": ops[r][:120], "impl": g[r][:200], "model": m[r][:200]}
+                ctx.notes.append(f"writer-representation-drift: {tag} line {r}: the implementation's len(buf) / backing array differs from the model's "
+                                 f"while every observable agrees and w <= len(buf) holds; the policy-specific theorems (writeBytes_policy, writer_growth, "
+                                 f"writer_growth_peak, grow_copies_everything) do not describe this tree, the abstract-writer theorems do "
+                                 f"(VERIF_WRITER_REPR=strict turns this into a violation)")
+        return 0
+    if any("UNSUPPORTED" in x for x in m[:d + 1]):
+        ctx.notes.append(f"{tag}: model left its float fragment at line {d} (generator problem, stream ignored from there)")
+        return 0
+    fail = ops[:d + 1]
+
+    def still(cand):
+        gg, mm = vlib.run_pair(ctx, cand, h, tag + "-shrink")
+        dd = divergence(gg, mm, len(cand))
+        return dd is not None and not any("UNSUPPORTED" in x or "bad-op" in x for x in (mm[:dd + 1] + gg[:dd + 1]))
+    if len(fail) > 1:
+        fail = vlib.shrink_sequence(ctx, h, fail, tag, still)
+    gg, mm = vlib.run_pair(ctx, fail, h, tag + "-final")
+    if divergence(gg, mm, len(fail)) is None:
+        fail, gg, mm = ops[:d + 1], g[:d + 1], m[:d + 1]
+    inv = _wr_inv_broken(gg)
+    vlib.record_violation(ctx, "correspondence", {"ops": fail, "impl": gg, "model": mm, "stream": label, "faketime": False,
+                                                  "explain": ("the reply writer reached a state with w > len(buf)" if inv is not None else
+                                                              "first divergence between redis.Writer and the Lean model of it (Model/RespWriter.lean) on this (shrunk) call sequence"
+                                                              + ("" if strict else ": an OBSERVABLE difference (reply / w / err / bytes handed to the connection)"))})
+    return 1
+
+
+
 def run(ctx, proofs_ok):
-    vlib.correspond_stream(ctx, vlib.build_harness(ctx), big_replies(), "big", "replies larger than every internal buffer, on fresh and used connections, inside and outside MULTI")
+    quick = ctx.tier == "quick"
+    h = vlib.build_harness(ctx)
+    # the reply writer alone against its model: state, backing array and sink after every call
+    writer_correspond(ctx, h, writer_edges(quick), "wr-edges",
+                           "bare reply writer: payloads around 4096 and its multiples up to 1 MiB, buffer filled to the boundary then each kind of write, failing flushes, 10^4 writes without a flush (w, len(buf), err, backing array and sink compared after every call)")
+    if ctx.violations:
+        return
+    for i in range(2 if quick else 6):
+        writer_correspond(ctx, h, writer_stream(ctx.rng, 1500 if quick else 8000), f"wr-{i}",
+                               "bare reply writer: random call sequences with payload sizes steered onto the free space and the multiples of 4096, failing flushes, new writers (w, len(buf), err, backing array and sink compared after every call)")
+        if ctx.violations:
+            return
+    vlib.correspond_stream(ctx, h, big_replies(), "big", "replies larger than every internal buffer, on fresh and used connections, inside and outside MULTI")
     if ctx.violations:
         return
     apicheck.run_resp_streams(ctx, [
